@@ -89,9 +89,14 @@ func (r *Run) send(req *simnet.Request, faults []Fault, defFrag string) *Resp {
 		// the first path segment travels in the Host header.  The answer must
 		// be the one the path-style request gets.
 		r.reqCount++
-		if (r.Plan.Seed+r.reqCount)%2 == 0 {
+		if (r.Plan.Seed+r.reqCount)%2 == 0 && !r.inSetup {
 			if m := hostSplit.FindStringSubmatch(req.Target); m != nil {
-				req.Host, req.Target = m[1]+".sim", "/"+m[2]
+				base := ".sim"
+				if (r.Plan.Seed+r.reqCount)%4 == 0 {
+					base = ".eu.sim" // through the second, nested base
+					r.stats.Faults["virtual-host-style-nested-base"]++
+				}
+				req.Host, req.Target = m[1]+base, "/"+m[2]
 				r.stats.Faults["virtual-host-style"]++
 			}
 		}
